@@ -190,6 +190,8 @@ type FuncRun struct {
 	obls     []*Obligation
 	scout    int
 	curFrame *Frame
+	defTerm  map[string]string // names introduced by def/defAlways/constFor and the terms they abbreviate
+	curWriteRoot string        // root reference of the object being written (when known)
 	realQuot map[string][2]string // real-valued definitions known to be an integer over a positive constant
 	curPos   token.Pos
 	wsStack  []*WriteSet
@@ -274,6 +276,7 @@ func (fr *FuncRun) def(sort, expr string) string {
 	n := fr.freshName("v")
 	fr.emit(fmt.Sprintf("(declare-fun %s () %s)", n, sort))
 	fr.emit(fmt.Sprintf("(assert (= %s %s))", n, expr))
+	fr.noteDef(n, expr)
 	return n
 }
 
@@ -282,6 +285,7 @@ func (fr *FuncRun) def(sort, expr string) string {
 func (fr *FuncRun) constFor(sort, expr, hint string) string {
 	n := fr.fresh(sort, hint)
 	fr.emit(fmt.Sprintf("(assert (= %s %s))", n, expr))
+	fr.noteDef(n, expr)
 	return n
 }
 
@@ -291,6 +295,7 @@ func (fr *FuncRun) defAlways(sort, expr, hint string) string {
 	n := fr.freshName(hint)
 	fr.emit(fmt.Sprintf("(declare-fun %s () %s)", n, sort))
 	fr.emit(fmt.Sprintf("(assert (= %s %s))", n, expr))
+	fr.noteDef(n, expr)
 	return n
 }
 
@@ -429,13 +434,14 @@ func (fr *FuncRun) heapSet(st *State, h, term string) {
 	st.heaps[h] = fr.defAlways(sort, term, h)
 	fr.noteHeapWrite(h)
 	if fr.addrLog != nil {
-		fr.addrLog[h] = append(fr.addrLog[h], addrWrite{term: storeAddr(term), fresh: fr.curWriteFresh})
+		fr.addrLog[h] = append(fr.addrLog[h], addrWrite{term: storeAddr(term), fresh: fr.curWriteFresh, root: fr.curWriteRoot})
 	}
 }
 
 type addrWrite struct {
 	term  string
 	fresh bool
+	root  string // reference of the written object's root, "" when unknown
 }
 
 // storeAddr extracts the index of the outermost (store H idx val) term.
@@ -503,6 +509,13 @@ func (fr *FuncRun) freshHeap(h string) string {
 		if gh == h {
 			fr.emit(fmt.Sprintf("(assert (= (select %s %s) (select %s_0 %s)))", v, g, h, g))
 		}
+	}
+	if ref, ok := fr.w.fieldOfHeap[h]; ok && fr.eng.initOnlyField(ref.t, ref.idx) {
+		// a field that is only ever stored to when its object is created keeps its value in every object of the
+		// entry state, whatever else is forgotten about the heap
+		a := fr.freshName("a")
+		fr.emit(fmt.Sprintf("(assert (forall ((%s Int)) (! (=> (oldaddr %s) (= (select %s %s) (select %s_0 %s))) :pattern ((select %s %s)))))", a, a, v, a, h, a, v, a))
+		fr.assumed["fields that are only stored to at the creation of their object keep their value (scan of the defining package)"] = true
 	}
 	return v
 }
@@ -686,7 +699,7 @@ func (fr *FuncRun) loopFrameCheck(st *State, h, addr string) {
 			if f.curBlk == nil || !wl.body[f.curBlk] || !wl.heaps[h] {
 				continue
 			}
-			if invariantTerm(addr, wl.marker) {
+			if fr.invariant(addr, wl.marker) {
 				continue
 			}
 			cond := "false"
@@ -697,4 +710,60 @@ func (fr *FuncRun) loopFrameCheck(st *State, h, addr string) {
 			return
 		}
 	}
+}
+
+func (fr *FuncRun) noteDef(name, expr string) {
+	if fr.defTerm == nil {
+		fr.defTerm = map[string]string{}
+	}
+	fr.defTerm[name] = expr
+}
+
+var nameRe = regexp.MustCompile(`[A-Za-z][A-Za-z0-9_!.$]*_(\d+)\b`)
+
+// invariant: the term denotes the same value in every iteration of a loop entered at allocation/naming mark
+// `marker`: every name in it was introduced before the loop, or abbreviates (def) a term that is invariant.
+func (fr *FuncRun) invariant(term string, marker int) bool {
+	return fr.invariantDepth(term, marker, 0)
+}
+
+func (fr *FuncRun) invariantDepth(term string, marker int, depth int) bool {
+	if term == "?" || term == "" || hasBound(term) || depth > 16 {
+		return false
+	}
+	for _, m := range nameRe.FindAllStringSubmatch(term, -1) {
+		n, _ := strconv.Atoi(m[1])
+		if n <= marker {
+			continue
+		}
+		ex, ok := fr.defTerm[m[0]]
+		if !ok || !fr.invariantDepth(ex, marker, depth+1) {
+			return false
+		}
+	}
+	return true
+}
+
+// expandDefs rewrites an invariant term so that it only mentions names introduced up to `marker`: abbreviations
+// introduced later (during a scouting pass that is rolled back) are replaced by the terms they stand for.
+func (fr *FuncRun) expandDefs(term string, marker int) string {
+	for depth := 0; depth < 16; depth++ {
+		changed := false
+		term = nameRe.ReplaceAllStringFunc(term, func(name string) string {
+			m := nameRe.FindStringSubmatch(name)
+			n, _ := strconv.Atoi(m[1])
+			if n <= marker {
+				return name
+			}
+			if ex, ok := fr.defTerm[name]; ok {
+				changed = true
+				return ex
+			}
+			return name
+		})
+		if !changed {
+			break
+		}
+	}
+	return term
 }
